@@ -26,8 +26,7 @@ package core
 //@
 //@ struct dialer
 //@   lock Mutex level 40
-//@   guarded_by Mutex: closed asynch redialer reconnTime reconnMinTime reconnMaxTime closeq
-//@   single_writer Dial Mutex: active
+//@   guarded_by Mutex: closed active asynch redialer reconnTime reconnMinTime reconnMaxTime closeq
 //@   immutable: d s addr
 //@   nullable: redialer
 //@
@@ -320,3 +319,12 @@ package core
 //@
 //@ func (*pipeList).Remove
 //@   before call:Unlock#1 assert !has(l.pipes, p.id)
+
+// ---- C12: a synchronous Dial that failed can be corrected and retried ----
+//@ func (*dialer).dial
+//@   ghost asy = d.asynch at call:Lock#1
+//@   before call:AfterFunc#1 assert d.active == at("call:Lock#2", d.active)
+//@   ensures !isnil(result) && result != mangos.ErrClosed && !old(redial) && !asy ==> !d.active
+//@
+//@ func (*dialer).Dial
+//@   ensures !wasActive && !wasClosed && !isAsynch && !isnil(result) && result != mangos.ErrClosed ==> !d.active
